@@ -290,8 +290,14 @@ theorem afterUpdateA_ok {isCreate : Bool} {cap : Captured} {s s' : State} {id : 
       (evDep (s.a.lookup id) ≠ [] →
         (isCreate = false ∧ cap.dep = evDep (s.a.lookup id)) ∨ s'.bEx (evDep (s.a.lookup id)) = true) ∧
       (evBoss (s.a.lookup id) ≠ [] →
-        (isCreate = false ∧ cap.boss = evBoss (s.a.lookup id)) ∨ s.aEx (evBoss (s.a.lookup id)) = true) := by
+        (isCreate = false ∧ cap.boss = evBoss (s.a.lookup id)) ∨ s.aEx (evBoss (s.a.lookup id)) = true) ∧
+      (evChief (s.a.lookup id) ≠ [] →
+        (isCreate = false ∧ cap.chief = evChief (s.a.lookup id)) ∨ s.aEx (evChief (s.a.lookup id)) = true) := by
   simp only [afterUpdateA, bind, Except.bind] at h
+  cases hch : bossAfter isCreate cap.chief (evChief (s.a.lookup id)) s with
+  | error x => simp [hch] at h
+  | ok u0 =>
+  simp only [hch] at h
   cases hbo : bossAfter isCreate cap.boss (evBoss (s.a.lookup id)) s with
   | error x => simp [hbo] at h
   | ok u =>
@@ -313,7 +319,7 @@ theorem afterUpdateA_ok {isCreate : Bool} {cap : Captured} {s s' : State} {id : 
         | ok s1 =>
           simp only [hfk] at h
           obtain ⟨rfl, hd⟩ := depAfter_ok h
-          exact ⟨un, ua, sr, rfl, rfl, rfl, hfk, hd, bossAfter_ok hbo⟩
+          exact ⟨un, ua, sr, rfl, rfl, rfl, hfk, hd, bossAfter_ok hbo, bossAfter_ok hch⟩
 
 theorem beforeDeleteA_ok {s s' : State} {id : Id} (h : beforeDeleteA s id = .ok s') :
     ∃ sr, setBeforeDelete (evRoles (s.a.lookup id)) id s.sRoles = .ok sr ∧
@@ -497,10 +503,12 @@ structure InvCore (s : State) : Prop where
   pe : SelfInv s.pe s.aEx
   mt : LinkInv s.mt s.aEx s.aEx
 
-/-- the self reference `boss` names an existing entity — except for the entities whose cascading
-    delete is in progress (`busy`): the boss of such an entity may already be gone (cycles) -/
-def BossOK (busy : List Id) (s : State) : Prop :=
-  ∀ j e, s.a.lookup j = some e → e.boss.getD [] ≠ [] → j ∉ busy → s.aEx (e.boss.getD []) = true
+/-- the self references name existing entities.  `boss` (cascade): except for the entities whose
+    cascading delete is in progress (`busy`) — the boss of such an entity may already be gone (cycles).
+    `chief` (restrict): always — a delete is refused while some `chief` names the entity. -/
+structure BossOK (busy : List Id) (s : State) : Prop where
+  boss : ∀ j e, s.a.lookup j = some e → e.boss.getD [] ≠ [] → j ∉ busy → s.aEx (e.boss.getD []) = true
+  chief : ∀ j e, s.a.lookup j = some e → e.chief.getD [] ≠ [] → s.aEx (e.chief.getD []) = true
 
 structure Inv (s : State) : Prop extends InvCore s where
   uLabel : UI (fun (e : EntB) => e.label.getD []) s.b s.uLabel
@@ -508,7 +516,7 @@ structure Inv (s : State) : Prop extends InvCore s where
 
 theorem inv_empty : Inv State.empty := by
   refine ⟨⟨?_, ?_, ?_, ?_, ?_, ?_, ?_, ?_, ?_, LinkInv.empty _ _, LinkInv.empty _ _, RcInv.empty _ _, ?_, ?_, ?_, ?_, ?_, ?_, ?_, ?_, SelfInv.empty _, LinkInv.empty _ _⟩, ?_, ?_⟩ <;>
-    simp [State.empty, UI, SI, NEK, BR, ThgDom, BossOK]
+    first | (constructor <;> simp [State.empty]) | simp [State.empty, UI, SI, NEK, BR, ThgDom]
 
 theorem aEx_congr {s s' : State} (h : s'.a = s.a) : s'.aEx = s.aEx := by funext j; simp [State.aEx, h]
 theorem bEx_congr {s s' : State} (h : s'.b = s.b) : s'.bEx = s.bEx := by funext j; simp [State.bEx, h]
@@ -587,19 +595,32 @@ theorem cEx_insert_mono {s : State} {id : Id} {e : EntA} {s' : State} (ha : s'.a
 
 
 theorem bossOK_insert {s s' : State} {id : Id} {e : EntA} (hb : BossOK [] s) (ha : s'.a = s.a.insert id e)
+    (hc : e.chief.getD [] ≠ [] → s'.aEx (e.chief.getD []) = true)
     (he : e.boss.getD [] ≠ [] → s'.aEx (e.boss.getD []) = true) : BossOK [] s' := by
-  intro j e' hj hne _
-  rw [ha] at hj
-  simp only [Map.lookup_insert] at hj
-  split at hj
-  · cases hj; exact he hne
-  · exact aEx_insert_mono ha _ (hb j e' hj hne (by simp))
+  constructor
+  · intro j e' hj hne _
+    rw [ha] at hj
+    simp only [Map.lookup_insert] at hj
+    split at hj
+    · cases hj; exact he hne
+    · exact aEx_insert_mono ha _ (hb.boss j e' hj hne (by simp))
+  · intro j e' hj hne
+    rw [ha] at hj
+    simp only [Map.lookup_insert] at hj
+    split at hj
+    · cases hj; exact hc hne
+    · exact aEx_insert_mono ha _ (hb.chief j e' hj hne)
 
 theorem bossOK_congr {s s' : State} {busy : List Id} (hb : BossOK busy s) (ha : s'.a = s.a) : BossOK busy s' := by
-  intro j e hj hne hnb
-  rw [ha] at hj
-  rw [aEx_congr ha]
-  exact hb j e hj hne hnb
+  constructor
+  · intro j e hj hne hnb
+    rw [ha] at hj
+    rw [aEx_congr ha]
+    exact hb.boss j e hj hne hnb
+  · intro j e hj hne
+    rw [ha] at hj
+    rw [aEx_congr ha]
+    exact hb.chief j e hj hne
 
 theorem inv_createA {s s' : State} {id : Id} {v : ValsA} (hi : Inv s) (h : createA s id v = .ok s') : Inv s' := by
   unfold createA at h
@@ -615,21 +636,21 @@ theorem inv_createA {s s' : State} {id : Id} {v : ValsA} (hi : Inv s) (h : creat
       · cases h
       · next s2 hsl =>
         obtain ⟨g', hg', rfl⟩ := setGroups_ok hsl
-        have hg1 : LinkInv s.g ({ s with hasA := true, a := s.a.insert id ⟨v.name, v.alias, setOf v.roles, v.owner, v.dep, v.boss, none, none⟩ } : State).aEx s.bEx :=
+        have hg1 : LinkInv s.g ({ s with hasA := true, a := s.a.insert id ⟨v.name, v.alias, setOf v.roles, v.owner, v.dep, v.boss, v.chief, none, none⟩ } : State).aEx s.bEx :=
           hi.g.mono (aEx_insert_mono rfl) (fun _ h => h)
         have hg2 := LinkPair.setLinks_pres hg1 (aEx_insert_self rfl) hg'
-        obtain ⟨un, ua, sr, hun, hua, hsr, hfk, hdep, hboss⟩ := afterUpdateA_ok h
-        simp only [Map.lookup_insert, if_true, evName, evAlias, evRoles, evOwner, evDep, evBoss, Captured.none] at hun hua hsr hfk hdep hboss
-        obtain ⟨k1, k2, k3, k4⟩ := fkAfter_create_ok (e := ⟨v.name, v.alias, setOf v.roles, v.owner, v.dep, v.boss, none, none⟩)
+        obtain ⟨un, ua, sr, hun, hua, hsr, hfk, hdep, hboss, hchief⟩ := afterUpdateA_ok h
+        simp only [Map.lookup_insert, if_true, evName, evAlias, evRoles, evOwner, evDep, evBoss, evChief, Captured.none] at hun hua hsr hfk hdep hboss hchief
+        obtain ⟨k1, k2, k3, k4⟩ := fkAfter_create_ok (e := ⟨v.name, v.alias, setOf v.roles, v.owner, v.dep, v.boss, v.chief, none, none⟩)
           (ents := s.a) (by exact hi.br) (by exact hi.thgDom) hfresh hfk
         obtain ⟨g1, g2, g3, g4, g5, g6, g7, g8, g9, g10, g11, g12, g13, g14, g15⟩ := k2.fields
         simp only at g1 g2 g3 g4 g5 g6 g7 g8 g9 g10 g11 g12 g13 g14 g15
-        have hsr' := C03.setAfter_ok (r := (·.roles)) (e := (⟨v.name, v.alias, setOf v.roles, v.owner, v.dep, v.boss, none, none⟩ : EntA))
+        have hsr' := C03.setAfter_ok (r := (·.roles)) (e := (⟨v.name, v.alias, setOf v.roles, v.owner, v.dep, v.boss, v.chief, none, none⟩ : EntA))
           hi.sRoles hi.nek (oldRoles := []) (id := id) (by intro x; simp [hfresh]) hsr
-        have hae : s'.aEx = ({ s with hasA := true, a := s.a.insert id ⟨v.name, v.alias, setOf v.roles, v.owner, v.dep, v.boss, none, none⟩ } : State).aEx :=
+        have hae : s'.aEx = ({ s with hasA := true, a := s.a.insert id ⟨v.name, v.alias, setOf v.roles, v.owner, v.dep, v.boss, v.chief, none, none⟩ } : State).aEx :=
           aEx_congr g3
         have hbe : s'.bEx = s.bEx := bEx_congr g4
-        refine ⟨core_assemble (e := ⟨v.name, v.alias, setOf v.roles, v.owner, v.dep, v.boss, none, none⟩) hi.toInvCore g3 g4 g2 g1
+        refine ⟨core_assemble (e := ⟨v.name, v.alias, setOf v.roles, v.owner, v.dep, v.boss, v.chief, none, none⟩) hi.toInvCore g3 g4 g2 g1
           ?_ ?_ ?_ ?_ ?_ ?_ k3 ?_ ?_ ?_ ?_ ?_ ?_ ?_ ?_ hid ?_ g14 g15, ?_, ?_⟩
         · rw [g3, g8]; exact C03.uniqueAfter_create_ok hi.uName hfresh hun
         · rw [g3, g9]; exact C03.uniqueAfter_create_ok hi.uAlias hfresh hua
@@ -652,10 +673,13 @@ theorem inv_createA {s s' : State} {id : Id} {v : ValsA} (hi : Inv s) (h : creat
         · intro c hc; cases hc
         · rw [g3, g13]; exact UI_insert_fresh_empty hi.uColour hfresh rfl
         · rw [g4, g11]; exact hi.uLabel
-        · refine bossOK_insert hi.boss g3 (fun hne => ?_)
-          rcases hboss hne with ⟨hc, _⟩ | hb
-          · cases hc
-          · rw [hae]; exact hb
+        · refine bossOK_insert hi.boss g3 (fun hne => ?_) (fun hne => ?_)
+          · rcases hchief hne with ⟨hc, _⟩ | hb
+            · cases hc
+            · rw [hae]; exact hb
+          · rcases hboss hne with ⟨hc, _⟩ | hb
+            · cases hc
+            · rw [hae]; exact hb
 
 
 
@@ -684,8 +708,8 @@ theorem inv_updateA {s s' : State} {id : Id} {v : ValsA} {chk : Option ChkA} (hi
         · simp only [hp, Bool.false_eq_true, if_false, pure, Except.pure] at h
           exact ⟨s.g, hg1, h⟩
       obtain ⟨g', hg2, h⟩ := hlink
-      obtain ⟨un, ua, sr, hun, hua, hsr, hfk, hdep, hboss⟩ := afterUpdateA_ok h
-      simp only [Map.lookup_insert, if_true, captureA, hold, evName, evAlias, evRoles, evOwner, evDep, evBoss] at hun hua hsr hfk hdep hboss
+      obtain ⟨un, ua, sr, hun, hua, hsr, hfk, hdep, hboss, hchief⟩ := afterUpdateA_ok h
+      simp only [Map.lookup_insert, if_true, captureA, hold, evName, evAlias, evRoles, evOwner, evDep, evBoss, evChief] at hun hua hsr hfk hdep hboss hchief
       obtain ⟨k1, k2, k3, k4⟩ := fkAfter_update_ok (e := persistFields old v chk) (ents := s.a) (by exact hi.br)
         (by exact hi.thgDom) hold (by exact hi.ownerExists id old hold) hfk
       obtain ⟨g1, g2, g3, g4, g5, g6, g7, g8, g9, g10, g11, g12, g13, g14, g15⟩ := k2.fields
@@ -718,11 +742,15 @@ theorem inv_updateA {s s' : State} {id : Id} {v : ValsA} {chk : Option ChkA} (hi
       · intro c hc; exact hi.codeNonEmpty id old c hold hc
       · rw [g3, g13]; exact UI_insert_same hi.uColour hold rfl
       · rw [g4, g11]; exact hi.uLabel
-      · refine bossOK_insert hi.boss g3 (fun hne => ?_)
-        rcases hboss hne with ⟨_, hc⟩ | hb
-        · have := hi.boss id old hold (by rw [hc]; exact hne) (by simp)
-          rw [hc] at this; exact aEx_insert_mono g3 _ this
-        · rw [hae]; exact hb
+      · refine bossOK_insert hi.boss g3 (fun hne => ?_) (fun hne => ?_)
+        · rcases hchief hne with ⟨_, hc⟩ | hb
+          · have := hi.boss.chief id old hold (by rw [hc]; exact hne)
+            rw [hc] at this; exact aEx_insert_mono g3 _ this
+          · rw [hae]; exact hb
+        · rcases hboss hne with ⟨_, hc⟩ | hb
+          · have := hi.boss.boss id old hold (by rw [hc]; exact hne) (by simp)
+            rw [hc] at this; exact aEx_insert_mono g3 _ this
+          · rw [hae]; exact hb
 
 
 
@@ -747,10 +775,10 @@ theorem inv_createA1 {s s' : State} {id : Id} {v : ValsA} {code : Bytes} {pals :
         · cases h
         · next s2' hsp =>
           obtain ⟨p', hp', rfl⟩ := setPals_ok hsp
-          have hg1 : LinkInv s.g ({ s with hasA := true, a := s.a.insert id ⟨v.name, v.alias, setOf v.roles, v.owner, v.dep, v.boss, some code, col⟩ } : State).aEx s.bEx :=
+          have hg1 : LinkInv s.g ({ s with hasA := true, a := s.a.insert id ⟨v.name, v.alias, setOf v.roles, v.owner, v.dep, v.boss, v.chief, some code, col⟩ } : State).aEx s.bEx :=
             hi.g.mono (aEx_insert_mono rfl) (fun _ h => h)
           have hg2 := LinkPair.setLinks_pres hg1 (aEx_insert_self rfl) hg'
-          have hp1 : LinkInv s.p ({ s with hasA := true, a := s.a.insert id ⟨v.name, v.alias, setOf v.roles, v.owner, v.dep, v.boss, some code, col⟩ } : State).cEx s.bEx :=
+          have hp1 : LinkInv s.p ({ s with hasA := true, a := s.a.insert id ⟨v.name, v.alias, setOf v.roles, v.owner, v.dep, v.boss, v.chief, some code, col⟩ } : State).cEx s.bEx :=
             hi.p.mono (cEx_insert_mono rfl (fun _ => rfl)) (fun _ h => h)
           have hp2 := LinkPair.setLinks_pres hp1 (by simp [State.cEx]) hp'
           split at h
@@ -761,30 +789,30 @@ theorem inv_createA1 {s s' : State} {id : Id} {v : ValsA} {code : Bytes} {pals :
             · next uc huc =>
               simp only [pure, Except.pure] at h
               cases h
-              obtain ⟨un, ua, sr, hun, hua, hsr, hfk, hdep, hboss⟩ := afterUpdateA_ok hs3
-              simp only [Map.lookup_insert, if_true, evName, evAlias, evRoles, evOwner, evDep, evBoss] at hun hua hsr hfk hdep hboss
+              obtain ⟨un, ua, sr, hun, hua, hsr, hfk, hdep, hboss, hchief⟩ := afterUpdateA_ok hs3
+              simp only [Map.lookup_insert, if_true, evName, evAlias, evRoles, evOwner, evDep, evBoss, evChief] at hun hua hsr hfk hdep hboss hchief
               cases hold : s.a.lookup id with
               | none =>
-                simp only [hold, Option.isSome_none, Bool.false_eq_true, if_false, Captured.none] at hun hua hsr hfk hdep hboss
-                obtain ⟨k1, k2, k3, k4⟩ := fkAfter_create_ok (e := ⟨v.name, v.alias, setOf v.roles, v.owner, v.dep, v.boss, some code, col⟩)
+                simp only [hold, Option.isSome_none, Bool.false_eq_true, if_false, Captured.none] at hun hua hsr hfk hdep hboss hchief
+                obtain ⟨k1, k2, k3, k4⟩ := fkAfter_create_ok (e := ⟨v.name, v.alias, setOf v.roles, v.owner, v.dep, v.boss, v.chief, some code, col⟩)
                   (ents := s.a) (by exact hi.br) (by exact hi.thgDom) hold hfk
                 obtain ⟨g1, g2, g3, g4, g5, g6, g7, g8, g9, g10, g11, g12, g13, g14, g15⟩ := k2.fields
                 simp only at g1 g2 g3 g4 g5 g6 g7 g8 g9 g10 g11 g12 g13 g14 g15
                 rw [g10] at huc
-                have hsr' := C03.setAfter_ok (r := (·.roles)) (e := (⟨v.name, v.alias, setOf v.roles, v.owner, v.dep, v.boss, some code, col⟩ : EntA))
+                have hsr' := C03.setAfter_ok (r := (·.roles)) (e := (⟨v.name, v.alias, setOf v.roles, v.owner, v.dep, v.boss, v.chief, some code, col⟩ : EntA))
                   hi.sRoles hi.nek (oldRoles := []) (id := id) (by intro x; simp [hold]) hsr
-                have hae : s3.aEx = ({ s with hasA := true, a := s.a.insert id ⟨v.name, v.alias, setOf v.roles, v.owner, v.dep, v.boss, some code, col⟩ } : State).aEx :=
+                have hae : s3.aEx = ({ s with hasA := true, a := s.a.insert id ⟨v.name, v.alias, setOf v.roles, v.owner, v.dep, v.boss, v.chief, some code, col⟩ } : State).aEx :=
                   aEx_congr g3
-                have hce : s3.cEx = ({ s with hasA := true, a := s.a.insert id ⟨v.name, v.alias, setOf v.roles, v.owner, v.dep, v.boss, some code, col⟩ } : State).cEx :=
+                have hce : s3.cEx = ({ s with hasA := true, a := s.a.insert id ⟨v.name, v.alias, setOf v.roles, v.owner, v.dep, v.boss, v.chief, some code, col⟩ } : State).cEx :=
                   cEx_congr g3
                 have hbe : s3.bEx = s.bEx := bEx_congr g4
-                refine ⟨core_assemble (s' := { s3 with uCode := uc }) (e := ⟨v.name, v.alias, setOf v.roles, v.owner, v.dep, v.boss, some code, col⟩)
+                refine ⟨core_assemble (s' := { s3 with uCode := uc }) (e := ⟨v.name, v.alias, setOf v.roles, v.owner, v.dep, v.boss, v.chief, some code, col⟩)
                   hi.toInvCore g3 g4 g2 g1 ?_ ?_ ?_ ?_ ?_ ?_ k3 ?_ ?_ ?_ ?_ ?_ ?_ ?_ ?_ hid ?_ g14 g15, ?_, ?_⟩
                 · show UI _ s3.a s3.uName; rw [g3, g8]; exact C03.uniqueAfter_create_ok hi.uName hold hun
                 · show UI _ s3.a s3.uAlias; rw [g3, g9]; exact C03.uniqueAfter_create_ok hi.uAlias hold hua
                 · show UI _ s3.a uc; rw [g3]
                   exact C03.uniqueAfter_create_ok (f := fun (e : EntA) => e.code.getD [])
-                    (e := (⟨v.name, v.alias, setOf v.roles, v.owner, v.dep, v.boss, some code, col⟩ : EntA)) hi.uCode hold huc
+                    (e := (⟨v.name, v.alias, setOf v.roles, v.owner, v.dep, v.boss, v.chief, some code, col⟩ : EntA)) hi.uCode hold huc
                 · show SI _ s3.a s3.sRoles; rw [g3, g12]; exact hsr'.1
                 · show NEK s3.sRoles; rw [g12]; exact hsr'.2
                 · show BR s3.a s3.thg; rw [g3]; exact k1
@@ -802,32 +830,35 @@ theorem inv_createA1 {s s' : State} {id : Id} {v : ValsA} {code : Bytes} {pals :
                 · intro c hc; cases hc; exact C03.uniqueAfter_create_nonempty huc rfl
                 · show UI _ s3.a s3.uColour; rw [g3, g13]; exact UI_insert_fresh_empty hi.uColour hold (by simp [← hcol, hold])
                 · show UI _ s3.b s3.uLabel; rw [g4, g11]; exact hi.uLabel
-                · refine bossOK_insert (s' := { s3 with uCode := uc }) hi.boss g3 (fun hne => ?_)
-                  rcases hboss hne with ⟨hc, _⟩ | hb
-                  · cases hc
-                  · show s3.aEx _ = true; rw [hae]; exact hb
+                · refine bossOK_insert (s' := { s3 with uCode := uc }) hi.boss g3 (fun hne => ?_) (fun hne => ?_)
+                  · rcases hchief hne with ⟨hc, _⟩ | hb
+                    · cases hc
+                    · show s3.aEx _ = true; rw [hae]; exact hb
+                  · rcases hboss hne with ⟨hc, _⟩ | hb
+                    · cases hc
+                    · show s3.aEx _ = true; rw [hae]; exact hb
               | some old =>
                 have hcode : old.code = none := by
                   cases hc : old.code with
                   | none => rfl
                   | some c => simp [State.cEx, hold, hc] at hnc
-                simp only [hold, Option.isSome_some, if_true, captureA, evName, evAlias, evRoles, evOwner, evDep, evBoss] at hun hua hsr hfk hdep hboss
-                obtain ⟨k1, k2, k3, k4⟩ := fkAfter_true_ok (e := ⟨v.name, v.alias, setOf v.roles, v.owner, v.dep, v.boss, some code, col⟩)
+                simp only [hold, Option.isSome_some, if_true, captureA, evName, evAlias, evRoles, evOwner, evDep, evBoss, evChief] at hun hua hsr hfk hdep hboss hchief
+                obtain ⟨k1, k2, k3, k4⟩ := fkAfter_true_ok (e := ⟨v.name, v.alias, setOf v.roles, v.owner, v.dep, v.boss, v.chief, some code, col⟩)
                   (ents := s.a) (by exact hi.br) (by exact hi.thgDom) hold hfk
                 obtain ⟨g1, g2, g3, g4, g5, g6, g7, g8, g9, g10, g11, g12, g13, g14, g15⟩ := k2.fields
                 simp only at g1 g2 g3 g4 g5 g6 g7 g8 g9 g10 g11 g12 g13 g14 g15
                 rw [g10] at huc
                 have huc' : uniqueAfter true false ((fun (e : EntA) => e.code.getD []) old)
-                    ((fun (e : EntA) => e.code.getD []) ⟨v.name, v.alias, setOf v.roles, v.owner, v.dep, v.boss, some code, col⟩) id s.uCode = .ok uc := by
+                    ((fun (e : EntA) => e.code.getD []) ⟨v.name, v.alias, setOf v.roles, v.owner, v.dep, v.boss, v.chief, some code, col⟩) id s.uCode = .ok uc := by
                   simpa [hcode] using huc
-                have hsr' := C03.setAfter_ok (r := (·.roles)) (e := (⟨v.name, v.alias, setOf v.roles, v.owner, v.dep, v.boss, some code, col⟩ : EntA))
+                have hsr' := C03.setAfter_ok (r := (·.roles)) (e := (⟨v.name, v.alias, setOf v.roles, v.owner, v.dep, v.boss, v.chief, some code, col⟩ : EntA))
                   hi.sRoles hi.nek (oldRoles := old.roles) (id := id) (by intro x; simp [hold]) hsr
-                have hae : s3.aEx = ({ s with hasA := true, a := s.a.insert id ⟨v.name, v.alias, setOf v.roles, v.owner, v.dep, v.boss, some code, col⟩ } : State).aEx :=
+                have hae : s3.aEx = ({ s with hasA := true, a := s.a.insert id ⟨v.name, v.alias, setOf v.roles, v.owner, v.dep, v.boss, v.chief, some code, col⟩ } : State).aEx :=
                   aEx_congr g3
-                have hce : s3.cEx = ({ s with hasA := true, a := s.a.insert id ⟨v.name, v.alias, setOf v.roles, v.owner, v.dep, v.boss, some code, col⟩ } : State).cEx :=
+                have hce : s3.cEx = ({ s with hasA := true, a := s.a.insert id ⟨v.name, v.alias, setOf v.roles, v.owner, v.dep, v.boss, v.chief, some code, col⟩ } : State).cEx :=
                   cEx_congr g3
                 have hbe : s3.bEx = s.bEx := bEx_congr g4
-                refine ⟨core_assemble (s' := { s3 with uCode := uc }) (e := ⟨v.name, v.alias, setOf v.roles, v.owner, v.dep, v.boss, some code, col⟩)
+                refine ⟨core_assemble (s' := { s3 with uCode := uc }) (e := ⟨v.name, v.alias, setOf v.roles, v.owner, v.dep, v.boss, v.chief, some code, col⟩)
                   hi.toInvCore g3 g4 g2 g1 ?_ ?_ ?_ ?_ ?_ ?_ k3 ?_ ?_ ?_ ?_ ?_ ?_ ?_ ?_ hid ?_ g14 g15, ?_, ?_⟩
                 · show UI _ s3.a s3.uName; rw [g3, g8]
                   exact C03.uniqueAfter_true_ok (f := fun (e : EntA) => e.name) hi.uName hold hun
@@ -852,10 +883,13 @@ theorem inv_createA1 {s s' : State} {id : Id} {v : ValsA} {code : Bytes} {pals :
                 · intro c hc; cases hc; exact C03.uniqueAfter_create_nonempty huc rfl
                 · show UI _ s3.a s3.uColour; rw [g3, g13]; exact UI_insert_same hi.uColour hold (by simp [← hcol, hold])
                 · show UI _ s3.b s3.uLabel; rw [g4, g11]; exact hi.uLabel
-                · refine bossOK_insert (s' := { s3 with uCode := uc }) hi.boss g3 (fun hne => ?_)
-                  rcases hboss hne with ⟨hc, _⟩ | hb
-                  · cases hc
-                  · show s3.aEx _ = true; rw [hae]; exact hb
+                · refine bossOK_insert (s' := { s3 with uCode := uc }) hi.boss g3 (fun hne => ?_) (fun hne => ?_)
+                  · rcases hchief hne with ⟨hc, _⟩ | hb
+                    · cases hc
+                    · show s3.aEx _ = true; rw [hae]; exact hb
+                  · rcases hboss hne with ⟨hc, _⟩ | hb
+                    · cases hc
+                    · show s3.aEx _ = true; rw [hae]; exact hb
 
 
 
@@ -876,10 +910,10 @@ theorem inv_createA2 {s s' : State} {id : Id} {v : ValsA} {colour : Bytes} (hi :
       · cases h
       · next s2 hsl =>
         obtain ⟨g', hg', rfl⟩ := setGroups_ok hsl
-        have hg1 : LinkInv s.g ({ s with hasA := true, a := s.a.insert id ⟨v.name, v.alias, setOf v.roles, v.owner, v.dep, v.boss, cd, some colour⟩ } : State).aEx s.bEx :=
+        have hg1 : LinkInv s.g ({ s with hasA := true, a := s.a.insert id ⟨v.name, v.alias, setOf v.roles, v.owner, v.dep, v.boss, v.chief, cd, some colour⟩ } : State).aEx s.bEx :=
           hi.g.mono (aEx_insert_mono rfl) (fun _ h => h)
         have hg2 := LinkPair.setLinks_pres hg1 (aEx_insert_self rfl) hg'
-        have hcx : ∀ j, s.cEx j = true → ({ s with hasA := true, a := s.a.insert id ⟨v.name, v.alias, setOf v.roles, v.owner, v.dep, v.boss, cd, some colour⟩ } : State).cEx j = true :=
+        have hcx : ∀ j, s.cEx j = true → ({ s with hasA := true, a := s.a.insert id ⟨v.name, v.alias, setOf v.roles, v.owner, v.dep, v.boss, v.chief, cd, some colour⟩ } : State).cEx j = true :=
           cEx_insert_mono rfl (by intro hc; simpa [State.cEx, ← hcd] using hc)
         split at h
         · cases h
@@ -889,22 +923,22 @@ theorem inv_createA2 {s s' : State} {id : Id} {v : ValsA} {colour : Bytes} (hi :
           · next uc huc =>
             simp only [pure, Except.pure] at h
             cases h
-            obtain ⟨un, ua, sr, hun, hua, hsr, hfk, hdep, hboss⟩ := afterUpdateA_ok hs3
-            simp only [Map.lookup_insert, if_true, evName, evAlias, evRoles, evOwner, evDep, evBoss] at hun hua hsr hfk hdep hboss
+            obtain ⟨un, ua, sr, hun, hua, hsr, hfk, hdep, hboss, hchief⟩ := afterUpdateA_ok hs3
+            simp only [Map.lookup_insert, if_true, evName, evAlias, evRoles, evOwner, evDep, evBoss, evChief] at hun hua hsr hfk hdep hboss hchief
             cases hold : s.a.lookup id with
             | none =>
-              simp only [hold, Option.isSome_none, Bool.false_eq_true, if_false, Captured.none] at hun hua hsr hfk hdep hboss
-              obtain ⟨k1, k2, k3, k4⟩ := fkAfter_create_ok (e := ⟨v.name, v.alias, setOf v.roles, v.owner, v.dep, v.boss, cd, some colour⟩)
+              simp only [hold, Option.isSome_none, Bool.false_eq_true, if_false, Captured.none] at hun hua hsr hfk hdep hboss hchief
+              obtain ⟨k1, k2, k3, k4⟩ := fkAfter_create_ok (e := ⟨v.name, v.alias, setOf v.roles, v.owner, v.dep, v.boss, v.chief, cd, some colour⟩)
                 (ents := s.a) (by exact hi.br) (by exact hi.thgDom) hold hfk
               obtain ⟨g1, g2, g3, g4, g5, g6, g7, g8, g9, g10, g11, g12, g13, g14, g15⟩ := k2.fields
               simp only at g1 g2 g3 g4 g5 g6 g7 g8 g9 g10 g11 g12 g13 g14 g15
               rw [g13] at huc
-              have hsr' := C03.setAfter_ok (r := (·.roles)) (e := (⟨v.name, v.alias, setOf v.roles, v.owner, v.dep, v.boss, cd, some colour⟩ : EntA))
+              have hsr' := C03.setAfter_ok (r := (·.roles)) (e := (⟨v.name, v.alias, setOf v.roles, v.owner, v.dep, v.boss, v.chief, cd, some colour⟩ : EntA))
                 hi.sRoles hi.nek (oldRoles := []) (id := id) (by intro x; simp [hold]) hsr
-              have hae : s3.aEx = ({ s with hasA := true, a := s.a.insert id ⟨v.name, v.alias, setOf v.roles, v.owner, v.dep, v.boss, cd, some colour⟩ } : State).aEx := aEx_congr g3
-              have hce : s3.cEx = ({ s with hasA := true, a := s.a.insert id ⟨v.name, v.alias, setOf v.roles, v.owner, v.dep, v.boss, cd, some colour⟩ } : State).cEx := cEx_congr g3
+              have hae : s3.aEx = ({ s with hasA := true, a := s.a.insert id ⟨v.name, v.alias, setOf v.roles, v.owner, v.dep, v.boss, v.chief, cd, some colour⟩ } : State).aEx := aEx_congr g3
+              have hce : s3.cEx = ({ s with hasA := true, a := s.a.insert id ⟨v.name, v.alias, setOf v.roles, v.owner, v.dep, v.boss, v.chief, cd, some colour⟩ } : State).cEx := cEx_congr g3
               have hbe : s3.bEx = s.bEx := bEx_congr g4
-              refine ⟨core_assemble (s' := { s3 with uColour := uc }) (e := ⟨v.name, v.alias, setOf v.roles, v.owner, v.dep, v.boss, cd, some colour⟩)
+              refine ⟨core_assemble (s' := { s3 with uColour := uc }) (e := ⟨v.name, v.alias, setOf v.roles, v.owner, v.dep, v.boss, v.chief, cd, some colour⟩)
                 hi.toInvCore g3 g4 g2 g1 ?_ ?_ ?_ ?_ ?_ ?_ k3 ?_ ?_ ?_ ?_ ?_ ?_ ?_ ?_ hid ?_ g14 g15, ?_, ?_⟩
               · show UI _ s3.a s3.uName; rw [g3, g8]; exact C03.uniqueAfter_create_ok hi.uName hold hun
               · show UI _ s3.a s3.uAlias; rw [g3, g9]; exact C03.uniqueAfter_create_ok hi.uAlias hold hua
@@ -926,33 +960,36 @@ theorem inv_createA2 {s s' : State} {id : Id} {v : ValsA} {colour : Bytes} (hi :
               · intro c hc; simp [← hcd, hold] at hc
               · show UI _ s3.a uc; rw [g3]
                 exact C03.uniqueAfter_create_ok (f := fun (e : EntA) => e.colour.getD [])
-                  (e := (⟨v.name, v.alias, setOf v.roles, v.owner, v.dep, v.boss, cd, some colour⟩ : EntA)) hi.uColour hold huc
+                  (e := (⟨v.name, v.alias, setOf v.roles, v.owner, v.dep, v.boss, v.chief, cd, some colour⟩ : EntA)) hi.uColour hold huc
               · show UI _ s3.b s3.uLabel; rw [g4, g11]; exact hi.uLabel
-              · refine bossOK_insert (s' := { s3 with uColour := uc }) hi.boss g3 (fun hne => ?_)
-                rcases hboss hne with ⟨hc, _⟩ | hb
-                · cases hc
-                · show s3.aEx _ = true; rw [hae]; exact hb
+              · refine bossOK_insert (s' := { s3 with uColour := uc }) hi.boss g3 (fun hne => ?_) (fun hne => ?_)
+                · rcases hchief hne with ⟨hc, _⟩ | hb
+                  · cases hc
+                  · show s3.aEx _ = true; rw [hae]; exact hb
+                · rcases hboss hne with ⟨hc, _⟩ | hb
+                  · cases hc
+                  · show s3.aEx _ = true; rw [hae]; exact hb
             | some old =>
               have hcolour : old.colour = none := by
                 cases hc : old.colour with
                 | none => rfl
                 | some c => simp [State.xEx, hold, hc] at hnx
               have hcdo : cd = old.code := by rw [← hcd, hold]; rfl
-              simp only [hold, Option.isSome_some, if_true, captureA, evName, evAlias, evRoles, evOwner, evDep, evBoss] at hun hua hsr hfk hdep hboss
-              obtain ⟨k1, k2, k3, k4⟩ := fkAfter_true_ok (e := ⟨v.name, v.alias, setOf v.roles, v.owner, v.dep, v.boss, cd, some colour⟩)
+              simp only [hold, Option.isSome_some, if_true, captureA, evName, evAlias, evRoles, evOwner, evDep, evBoss, evChief] at hun hua hsr hfk hdep hboss hchief
+              obtain ⟨k1, k2, k3, k4⟩ := fkAfter_true_ok (e := ⟨v.name, v.alias, setOf v.roles, v.owner, v.dep, v.boss, v.chief, cd, some colour⟩)
                 (ents := s.a) (by exact hi.br) (by exact hi.thgDom) hold hfk
               obtain ⟨g1, g2, g3, g4, g5, g6, g7, g8, g9, g10, g11, g12, g13, g14, g15⟩ := k2.fields
               simp only at g1 g2 g3 g4 g5 g6 g7 g8 g9 g10 g11 g12 g13 g14 g15
               rw [g13] at huc
               have huc' : uniqueAfter true true ((fun (e : EntA) => e.colour.getD []) old)
-                  ((fun (e : EntA) => e.colour.getD []) ⟨v.name, v.alias, setOf v.roles, v.owner, v.dep, v.boss, cd, some colour⟩) id s.uColour = .ok uc := by
+                  ((fun (e : EntA) => e.colour.getD []) ⟨v.name, v.alias, setOf v.roles, v.owner, v.dep, v.boss, v.chief, cd, some colour⟩) id s.uColour = .ok uc := by
                 simpa [hcolour] using huc
-              have hsr' := C03.setAfter_ok (r := (·.roles)) (e := (⟨v.name, v.alias, setOf v.roles, v.owner, v.dep, v.boss, cd, some colour⟩ : EntA))
+              have hsr' := C03.setAfter_ok (r := (·.roles)) (e := (⟨v.name, v.alias, setOf v.roles, v.owner, v.dep, v.boss, v.chief, cd, some colour⟩ : EntA))
                 hi.sRoles hi.nek (oldRoles := old.roles) (id := id) (by intro x; simp [hold]) hsr
-              have hae : s3.aEx = ({ s with hasA := true, a := s.a.insert id ⟨v.name, v.alias, setOf v.roles, v.owner, v.dep, v.boss, cd, some colour⟩ } : State).aEx := aEx_congr g3
-              have hce : s3.cEx = ({ s with hasA := true, a := s.a.insert id ⟨v.name, v.alias, setOf v.roles, v.owner, v.dep, v.boss, cd, some colour⟩ } : State).cEx := cEx_congr g3
+              have hae : s3.aEx = ({ s with hasA := true, a := s.a.insert id ⟨v.name, v.alias, setOf v.roles, v.owner, v.dep, v.boss, v.chief, cd, some colour⟩ } : State).aEx := aEx_congr g3
+              have hce : s3.cEx = ({ s with hasA := true, a := s.a.insert id ⟨v.name, v.alias, setOf v.roles, v.owner, v.dep, v.boss, v.chief, cd, some colour⟩ } : State).cEx := cEx_congr g3
               have hbe : s3.bEx = s.bEx := bEx_congr g4
-              refine ⟨core_assemble (s' := { s3 with uColour := uc }) (e := ⟨v.name, v.alias, setOf v.roles, v.owner, v.dep, v.boss, cd, some colour⟩)
+              refine ⟨core_assemble (s' := { s3 with uColour := uc }) (e := ⟨v.name, v.alias, setOf v.roles, v.owner, v.dep, v.boss, v.chief, cd, some colour⟩)
                 hi.toInvCore g3 g4 g2 g1 ?_ ?_ ?_ ?_ ?_ ?_ k3 ?_ ?_ ?_ ?_ ?_ ?_ ?_ ?_ hid ?_ g14 g15, ?_, ?_⟩
               · show UI _ s3.a s3.uName; rw [g3, g8]
                 exact C03.uniqueAfter_true_ok (f := fun (e : EntA) => e.name) hi.uName hold hun
@@ -977,10 +1014,13 @@ theorem inv_createA2 {s s' : State} {id : Id} {v : ValsA} {colour : Bytes} (hi :
               · show UI _ s3.a uc; rw [g3]
                 exact C03.uniqueAfter_true_ok (f := fun (e : EntA) => e.colour.getD []) hi.uColour hold huc'
               · show UI _ s3.b s3.uLabel; rw [g4, g11]; exact hi.uLabel
-              · refine bossOK_insert (s' := { s3 with uColour := uc }) hi.boss g3 (fun hne => ?_)
-                rcases hboss hne with ⟨hc, _⟩ | hb
-                · cases hc
-                · show s3.aEx _ = true; rw [hae]; exact hb
+              · refine bossOK_insert (s' := { s3 with uColour := uc }) hi.boss g3 (fun hne => ?_) (fun hne => ?_)
+                · rcases hchief hne with ⟨hc, _⟩ | hb
+                  · cases hc
+                  · show s3.aEx _ = true; rw [hae]; exact hb
+                · rcases hboss hne with ⟨hc, _⟩ | hb
+                  · cases hc
+                  · show s3.aEx _ = true; rw [hae]; exact hb
 
 /-- `A2.Update`: parent fields and `colour` through the extended child store -/
 theorem inv_updateA2 {s s' : State} {id : Id} {v : ValsA} {colour : Bytes} {chk : Option ChkA} {cc : Bool} (hi : Inv s)
@@ -1028,8 +1068,8 @@ theorem inv_updateA2 {s s' : State} {id : Id} {v : ValsA} {colour : Bytes} {chk 
               cases h
               exact ⟨s.g, s3, uc, hg1, hs3, huc, rfl⟩
       obtain ⟨g', s3, uc, hg2, h3, huc, rfl⟩ := hlink
-      obtain ⟨un, ua, sr, hun, hua, hsr, hfk, hdep, hboss⟩ := afterUpdateA_ok h3
-      simp only [Map.lookup_insert, if_true, captureA, hold, evName, evAlias, evRoles, evOwner, evDep, evBoss] at hun hua hsr hfk hdep hboss
+      obtain ⟨un, ua, sr, hun, hua, hsr, hfk, hdep, hboss, hchief⟩ := afterUpdateA_ok h3
+      simp only [Map.lookup_insert, if_true, captureA, hold, evName, evAlias, evRoles, evOwner, evDep, evBoss, evChief] at hun hua hsr hfk hdep hboss hchief
       obtain ⟨k1, k2, k3, k4⟩ := fkAfter_update_ok (e := { persistFields old v chk with colour := some newc }) (ents := s.a) (by exact hi.br)
         (by exact hi.thgDom) hold (by exact hi.ownerExists id old hold) hfk
       obtain ⟨g1, g2, g3, g4, g5, g6, g7, g8, g9, g10, g11, g12, g13, g14, g15⟩ := k2.fields
@@ -1069,11 +1109,15 @@ theorem inv_updateA2 {s s' : State} {id : Id} {v : ValsA} {colour : Bytes} {chk 
       · show UI _ s3.a uc; rw [g3]
         exact C03.uniqueAfter_update_ok (f := fun (e : EntA) => e.colour.getD []) hi.uColour hold huc'
       · show UI _ s3.b s3.uLabel; rw [g4, g11]; exact hi.uLabel
-      · refine bossOK_insert (s' := { s3 with uColour := uc }) hi.boss g3 (fun hne => ?_)
-        rcases hboss hne with ⟨_, hc⟩ | hb
-        · have := hi.boss id old hold (by rw [hc]; exact hne) (by simp)
-          rw [hc] at this; exact aEx_insert_mono g3 _ this
-        · show s3.aEx _ = true; rw [hae]; exact hb
+      · refine bossOK_insert (s' := { s3 with uColour := uc }) hi.boss g3 (fun hne => ?_) (fun hne => ?_)
+        · rcases hchief hne with ⟨_, hc⟩ | hb
+          · have := hi.boss.chief id old hold (by rw [hc]; exact hne)
+            rw [hc] at this; exact aEx_insert_mono g3 _ this
+          · show s3.aEx _ = true; rw [hae]; exact hb
+        · rcases hboss hne with ⟨_, hc⟩ | hb
+          · have := hi.boss.boss id old hold (by rw [hc]; exact hne) (by simp)
+            rw [hc] at this; exact aEx_insert_mono g3 _ this
+          · show s3.aEx _ = true; rw [hae]; exact hb
 
 theorem bEx_insert_mono {s : State} {id : Id} {e : EntB} {s' : State} (hb : s'.b = s.b.insert id e) :
     ∀ j, s.bEx j = true → s'.bEx j = true := by
@@ -1471,7 +1515,7 @@ theorem cascadeBoss_spec {del : List Id → State → Id → Except Err State} (
   · rw [hj] at hm; cases hm
 
 theorem bossOK_mono {busy busy' : List Id} {s : State} (h : BossOK busy s) (hsub : ∀ k, k ∈ busy → k ∈ busy') :
-    BossOK busy' s := fun j e hj hne hnb => h j e hj hne (fun hm => hnb (hsub _ hm))
+    BossOK busy' s := ⟨fun j e hj hne hnb => h.boss j e hj hne (fun hm => hnb (hsub _ hm)), h.chief⟩
 
 /-- the strip steps keep the entity table -/
 theorem beforeDeleteA_a {s s' : State} {id : Id} (h : beforeDeleteA s id = .ok s') : s'.a = s.a := by
@@ -1492,11 +1536,35 @@ theorem cascadeBoss_skip {del : List Id → State → Id → Except Err State} {
   obtain ⟨ej, hje, hjb⟩ := (mem_minions s0 id j).1 hj
   exact Or.inl (c7 j ej hje hjb)
 
-/-- `A.DeleteById` = the cascade over the referrers, then the delete proper (`deleteA0`): the cascade
-    loops of the later constraint rounds find every remaining referrer in progress -/
+theorem chiefCheck_ok_iff (s : State) (id : Id) :
+    chiefCheck s id = .ok () ↔ ∀ j e, s.a.lookup j = some e → e.chief.getD [] ≠ id := by
+  unfold chiefCheck
+  constructor
+  · intro h j e hj heq
+    split at h
+    · cases h
+    · next hany =>
+      apply hany
+      simp only [List.any_eq_true, decide_eq_true_eq, Prod.exists, Map.mem_entries_iff]
+      exact ⟨j, e, hj, heq⟩
+  · intro h
+    split
+    · next hany =>
+      simp only [List.any_eq_true, decide_eq_true_eq, Prod.exists, Map.mem_entries_iff] at hany
+      obtain ⟨j, e, hj, heq⟩ := hany
+      exact absurd heq (h j e hj)
+    · rfl
+
+/-- a restrict check that passed keeps passing while entities only disappear -/
+theorem chiefCheck_mono {s t : State} {id : Id} (h : chiefCheck s id = .ok ())
+    (hsub : ∀ j e, t.a.lookup j = some e → s.a.lookup j = some e) : chiefCheck t id = .ok () :=
+  (chiefCheck_ok_iff t id).2 (fun j e hj => (chiefCheck_ok_iff s id).1 h j e (hsub j e hj))
+
+/-- `A.DeleteById` = the restrict check, the cascade over the referrers, then the delete proper
+    (`deleteA0`): the checks and cascade loops of the later constraint rounds find nothing new -/
 theorem deleteA_decomp {fuel : Nat} (hd : DelSpec (deleteA fuel)) {busy : List Id} {s s' : State} {id : Id}
     (hi : InvCore s) (hb : BossOK busy s) (h : deleteA (fuel + 1) busy s id = .ok s') :
-    ∃ s0, cascadeBoss (deleteA fuel) busy s id = .ok s0 ∧ deleteA0 s0 id = .ok s' := by
+    ∃ s0, chiefCheck s id = .ok () ∧ cascadeBoss (deleteA fuel) busy s id = .ok s0 ∧ deleteA0 s0 id = .ok s' := by
   have hb' : BossOK (markBusy busy id) s := bossOK_mono hb (fun k hk => (mem_markBusy busy id k).2 (Or.inr hk))
   unfold deleteA at h
   split at h
@@ -1509,32 +1577,44 @@ theorem deleteA_decomp {fuel : Nat} (hd : DelSpec (deleteA fuel)) {busy : List I
       cases hc : e.code with
       | none =>
         simp only [hc, Option.isSome_none, Bool.false_eq_true, if_false] at h
+        cases hcc : chiefCheck s id with
+        | error x => simp [hcc] at h
+        | ok u0 =>
+        simp only [hcc] at h
         cases hcb : cascadeBoss (deleteA fuel) busy s id with
         | error x => simp [hcb] at h
         | ok s0 =>
           simp only [hcb] at h
-          obtain ⟨_, _, _, _, _, _, c7, c8⟩ := cascadeBoss_spec hd hi hb' hcb
+          obtain ⟨_, _, _, _, _, c6, c7, c8⟩ := cascadeBoss_spec hd hi hb' hcb
           have hold0 : s0.a.lookup id = some e := by
             rw [c8 id ((mem_markBusy busy id id).2 (Or.inl rfl))]; exact hold
           cases hbd : beforeDeleteA s0 id with
           | error x => simp [hbd] at h
           | ok tx =>
             simp only [hbd] at h
+            have htxa : tx.a = s0.a := beforeDeleteA_a hbd
+            rw [chiefCheck_mono (t := { tx with uColour := uniqueBeforeDelete (evColour (some e)) tx.uColour }) hcc
+              (fun j e' hj => c6 j e' (by rw [← htxa]; exact hj))] at h
+            simp only at h
             rw [cascadeBoss_skip (s0 := s0)
               (t := { tx with uColour := uniqueBeforeDelete (evColour (some e)) tx.uColour })
-              (show tx.a = s0.a from beforeDeleteA_a hbd) c7] at h
-            refine ⟨s0, rfl, ?_⟩
+              (show tx.a = s0.a from htxa) c7] at h
+            refine ⟨s0, rfl, rfl, ?_⟩
             unfold deleteA0
             simp only [hid, if_false, hold0, hc, Option.isSome_none, Bool.false_eq_true, bind, Except.bind, pure, Except.pure,
               deleteA0Tail, hbd]
             exact h
       | some c =>
         simp only [hc, Option.isSome_some, if_true] at h
+        cases hcc : chiefCheck s id with
+        | error x => simp [hcc] at h
+        | ok u0 =>
+        simp only [hcc] at h
         cases hcb : cascadeBoss (deleteA fuel) busy s id with
         | error x => simp [hcb] at h
         | ok s0 =>
           simp only [hcb] at h
-          obtain ⟨_, _, _, _, _, _, c7, c8⟩ := cascadeBoss_spec hd hi hb' hcb
+          obtain ⟨_, _, _, _, _, c6, c7, c8⟩ := cascadeBoss_spec hd hi hb' hcb
           have hold0 : s0.a.lookup id = some e := by
             rw [c8 id ((mem_markBusy busy id id).2 (Or.inl rfl))]; exact hold
           cases hbd : beforeDeleteA s0 id with
@@ -1542,7 +1622,10 @@ theorem deleteA_decomp {fuel : Nat} (hd : DelSpec (deleteA fuel)) {busy : List I
           | ok t =>
             simp only [hbd] at h
             have hta : t.a = s0.a := beforeDeleteA_a hbd
-            -- the cascades of the later rounds are the identity
+            -- the checks and cascades of the later rounds are the identity
+            rw [chiefCheck_mono (t := { t with uCode := uniqueBeforeDelete (evCode (some e)) t.uCode, p := t.p.cleanFwd t.bEx id }) hcc
+              (fun j e' hj => c6 j e' (by rw [← hta]; exact hj))] at h
+            simp only at h
             rw [cascadeBoss_skip (s0 := s0)
               (t := { t with uCode := uniqueBeforeDelete (evCode (some e)) t.uCode, p := t.p.cleanFwd t.bEx id }) hta c7] at h
             simp only at h
@@ -1550,10 +1633,14 @@ theorem deleteA_decomp {fuel : Nat} (hd : DelSpec (deleteA fuel)) {busy : List I
             | error x => simp [hbd2] at h
             | ok tx =>
               simp only [hbd2] at h
+              have htxa : tx.a = s0.a := (beforeDeleteA_a hbd2).trans hta
+              rw [chiefCheck_mono (t := { tx with uColour := uniqueBeforeDelete (evColour (some e)) tx.uColour }) hcc
+                (fun j e' hj => c6 j e' (by rw [← htxa]; exact hj))] at h
+              simp only at h
               rw [cascadeBoss_skip (s0 := s0)
                 (t := { tx with uColour := uniqueBeforeDelete (evColour (some e)) tx.uColour })
-                (show tx.a = s0.a from (beforeDeleteA_a hbd2).trans hta) c7] at h
-              refine ⟨s0, rfl, ?_⟩
+                (show tx.a = s0.a from htxa) c7] at h
+              refine ⟨s0, rfl, rfl, ?_⟩
               unfold deleteA0
               simp only [hid, if_false, hold0, hc, Option.isSome_some, if_true, bind, Except.bind, pure, Except.pure, hbd,
                 deleteA0Tail, hbd2]
@@ -1565,10 +1652,10 @@ theorem deleteA_spec (fuel : Nat) : DelSpec (deleteA fuel) := by
   | succ fuel ih =>
     intro busy s id s' hi hb h
     have hb' : BossOK (markBusy busy id) s := bossOK_mono hb (fun k hk => (mem_markBusy busy id k).2 (Or.inr hk))
-    obtain ⟨s0, hcb, h0⟩ := deleteA_decomp ih hi hb h
+    obtain ⟨s0, hcc, hcb, h0⟩ := deleteA_decomp ih hi hb h
     obtain ⟨c1, c2, c3, c4, c5, c6, c7, c8⟩ := cascadeBoss_spec ih hi hb' hcb
     obtain ⟨d1, d2, d3, d4, d5, _⟩ := core_deleteA0 c1 h0
-    refine ⟨d1, ?_, d3.trans c3, d4.trans c4, d5.trans c5, ?_, by rw [d2]; simp, ?_⟩
+    refine ⟨d1, ⟨?_, ?_⟩, d3.trans c3, d4.trans c4, d5.trans c5, ?_, by rw [d2]; simp, ?_⟩
     · intro j e hj hne hnb
       rw [d2] at hj
       simp only [Map.lookup_erase] at hj
@@ -1579,8 +1666,18 @@ theorem deleteA_spec (fuel : Nat) : DelSpec (deleteA fuel) := by
           rw [mem_markBusy]; rintro (h1 | h1)
           · exact hji h1
           · exact hnb h1
-        have hex := c2 j e hj hne hnb'
+        have hex := c2.boss j e hj hne hnb'
         have hne' : e.boss.getD [] ≠ id := fun heq => hnb' (c7 j e hj heq)
+        simp only [State.aEx, d2, Map.lookup_erase, hne', if_false]
+        exact hex
+    · -- restrict: nobody's chief named the id when the delete started, and entities only disappeared
+      intro j e hj hne
+      rw [d2] at hj
+      simp only [Map.lookup_erase] at hj
+      split at hj
+      · cases hj
+      · have hex := c2.chief j e hj hne
+        have hne' : e.chief.getD [] ≠ id := (chiefCheck_ok_iff s id).1 hcc j e (c6 j e hj)
         simp only [State.aEx, d2, Map.lookup_erase, hne', if_false]
         exact hex
     · intro k e hk
